@@ -184,6 +184,30 @@ func runC10(c *core.Ctx) {
 	}
 	c.Sample("m/0000000000000000000002147483647H/1/2")
 
+	// every byte value (and every multi-byte rune of a small set) at every position of a set of templates: as a marker
+	// behind the digits, between digits, in front, as separator, as prefix letter; substituted and inserted. This replaces
+	// the assumption that every byte outside the alphabet behaves like 'x'.
+	templates := []string{"m/44", "m/44'", "m/44H", "m/2147483647", "44", "m/1/2", "m/0'/1H/2", "m/7/", "m"}
+	var pieces []string
+	for b := 0; b < 256; b++ {
+		pieces = append(pieces, string([]byte{byte(b)}))
+	}
+	pieces = append(pieces, "′", "ʹ", "Ｈ", "٠", "０", "∕", "⁄", "ħ", "¹", "||", "|'", "'|", "H|")
+	for _, tpl := range templates {
+		for pos := 0; pos <= len(tpl); pos++ {
+			for _, pc := range pieces {
+				if c10Judge(c, tpl[:pos]+pc+tpl[pos:], "byte-sweep") {
+					nontriv++
+				}
+				if pos < len(tpl) {
+					if c10Judge(c, tpl[:pos]+pc+tpl[pos+1:], "byte-sweep") {
+						nontriv++
+					}
+				}
+			}
+		}
+	}
+
 	// round trip
 	idx := []uint32{0, 1, 1<<31 - 1, 1 << 31, 1<<31 + 1, 1<<32 - 1}
 	var paths [][]uint32
@@ -237,5 +261,5 @@ func runC10(c *core.Ctx) {
 	}
 	c.NonTrivial(nontriv)
 	c.SetExhaustive(true)
-	c.Assume = []string{"alphabet {0,1,7,8,9,m,/,H,',x}: every other byte behaves like 'x' (not a digit, not a marker) - spot-checked through the component product shapes"}
+	c.Assume = []string{"strings over the 10-symbol alphabet are complete up to the length bound; every other byte value is covered by substitution / insertion at every position of 9 templates, not in arbitrary combination"}
 }
